@@ -1,7 +1,7 @@
 """C15 — gradients through TT operations match the dense derivative (autograd model, DESIGN 4 C15)."""
 
 EXPRS = ['full', 'add', 'sub_mul', 'scalar_ops', 'neg_kron', 'sum_all', 'sum_index', 'dot', 'dot_sq', 'norm_sq', 'norm', 'matvec', 'matmat', 'bilinear',
-         'getitem', 'apply_mask', 'cat', 'pad', 'diag', 'mprod', 'depth3']
+         'getitem', 'apply_mask', 'cat', 'pad', 'diag', 'mprod', 'depth3', 'scale_by_dot', 'scale_by_sum']
 
 
 def cases(tier, seed):
@@ -16,7 +16,7 @@ def cases(tier, seed):
             if e in ('matmat',) and d > 2 and not th:
                 continue
             base = {'N': N, 'R': R, 'R2': R2, 'RA': [1] + [2] * (d - 1) + [1], 'expr': e}
-            uses_y = e in ('add', 'sub_mul', 'neg_kron', 'sum_all', 'dot', 'dot_sq', 'norm', 'bilinear', 'cat', 'depth3')
+            uses_y = e in ('add', 'sub_mul', 'neg_kron', 'sum_all', 'dot', 'dot_sq', 'norm', 'bilinear', 'cat', 'depth3', 'scale_by_dot', 'scale_by_sum')
             uses_A = e in ('matvec', 'matmat', 'bilinear')
             # which operands / cores are tracked
             variants = [({'x': None}, 'grad')]
@@ -60,7 +60,7 @@ def meta(tier):
            tt.dot, tt.bilinear_form, tt.cat, tt.pad, tt.diag, tt.nn.LinearLayerTT.forward]
     return {
         'functions': loader.functions_encoded(fns), 'sig': sig,
-        'bounds': '%d expressions of depth 1..3 over the differentiable operations (full, +, -, *, @, scalar ops, kron, sum, dot, norm, bilinear_form, slicing, apply_mask, cat, pad, diag, mprod, TT layer) on operands '
+        'bounds': '%d expressions of depth 1..3 (incl. TT objects scaled by one-element tensors that depend on tracked cores) over the differentiable operations (full, +, -, *, @, scalar ops, kron, sum, dot, norm, bilinear_form, slicing, apply_mask, cat, pad, diag, mprod, TT layer) on operands '
                   'of order 1..2 (thorough 3), sizes <= 3, ranks <= 2(3); every choice of tracked operand / single tracked core; grad.grad, grad.grad_list (flat and nested); all core entries symbolic' % len(EXPRS),
         'outside': 'the derivative of each torch primitive (torch autograd engine is trusted); saved-tensor version checks; float rounding; orders > 3; expressions deeper than 3',
         'assumptions': ['autograd model of tv/autograd.py: leaves = symbols, detach/item/numpy/tensor(t) = value-equal cut copies, backward = exact symbolic differentiation of the scalar expression',
